@@ -5,7 +5,16 @@ EXC_TYPES = [RuntimeError, TimeoutError, ValueError, KeyError, StopIteration, As
 
 
 def make(index, message):
-    t = EXC_TYPES[(index or 0) % len(EXC_TYPES)]
+    """the exception for slot `index`: the type cycles through EXC_TYPES; about a third of the slots carry no message at all
+    (str(e) == '' - bare `raise ValueError`, a failed bare assert, queue.Empty ...) or a falsy one"""
+    index = index or 0
+    t = EXC_TYPES[index % len(EXC_TYPES)]
     if t is UnicodeDecodeError:
         return UnicodeDecodeError("utf-8", b"\xff", 0, 1, message)
+    if index % 5 == 3:
+        return t()
+    if index % 7 == 5:
+        return t("")
+    if index % 11 == 8:
+        return t(0)
     return t(message)
